@@ -5,30 +5,115 @@ Proof: Props/C09.lean (the probed operator / builtin tables of the real checker 
 documented ones up to the listed D-09d entries; for every program the diagnostics of the scoping rules
 are exactly the violations of the declarative specification; the full equivalence is false of the
 current code — D-09b/c/d — and holds under an explicit typing hypothesis).
-Tie: family `resolve` (diagnostics, bindings and facts of the real resolver vs Model/Resolve.lean).
+Tie: family `resolve` (diagnostics, bindings and facts of the real resolver vs Model/Resolve.lean) on the
+real parser's AST, and — composed — family `pipe`, `front` requests: the verdict and the diagnostics of the
+WHOLE real front end on a source text vs the Lean front end (own lexer, own parser, own template scanner,
+resolver model), so that a change in how the parser hands a construct to the checker (a placeholder that is
+no longer a placeholder, a statement parsed as another) cannot hide behind a shared AST.
 Oracles without the model: the real resolver's scoping diagnostics vs Spec/WF.lean; acceptance vs the
 documented judgement Spec.WF; binding annotations name the occurrence; generator expectations."""
 from common import Check
+import pipelib
 import resolvelib as rl
+
+C09_CATEGORIES = ("Undeclared_identifier", "Assignment_to_undeclared_variable", "Invalid_parameter_count",
+                  "Unreachable_code", "Duplicate_identifier", "Use_of_reserved_keyword", "Type_mismatch")
 
 
 def run(ck: Check):
     ck.rule = ("programs from a typed generator: well-formed (name reuse, shadowing, re-declaration, nested / recursive / "
                "forward-referenced functions, captures, interpolation), one injected violation of one static rule at a "
-               "random position and nesting context, unconstrained programs, corpus; non-trivial = a violation program or a "
+               "random position and nesting context, unconstrained programs, corpus; composed stream over source "
+               "TEXTS (whole real front end vs the Lean front end): the same generators plus a product of string "
+               "templates (placeholder next to `{{` / `}}`, doubled braces, malformed groups) x status of the named "
+               "variable (declared, undeclared, out of scope, declared later, parameter, shadowed, function / builtin "
+               "name) x syntactic position x nesting context; non-trivial = a violation program or a "
                "program with a function and a nested scope; distinct by program text")
     ck.build_harness()
     ck.gen_tables()
     rl.resolve_obligations(ck, props=("C09",))
-    ck.build_driver(["Resolve"])
+    ck.build_driver(["Resolve", "Pipe"])
     out = rl.resolve_streams(ck, ck.tier)
     rl.resolve_findings(ck, n=60 if ck.tier == "quick" else 600)
+    comp = composed_stream(ck, 6000 if ck.tier == "quick" else 200000)
     if ck.tier == "thorough":
         ck.leanchecker(["NaijaVerif.Props.C09"])
-    if ck.is_broken() or out["failures"]:
-        rl.resolve_search(ck, out)
+    if comp["failures"]:
+        report_composed(ck, comp)
+    # the resolver unit's own search must not see the entries of the composed stream (other request format)
+    pipe_dis = [d for d in ck.disagreements if d.get("family") == pipelib.FAMILY]
+    pipe_orc = [f for f in ck.oracle_fails if f.get("family") == pipelib.FAMILY]
+    ck.disagreements[:] = [d for d in ck.disagreements if d.get("family") != pipelib.FAMILY]
+    ck.oracle_fails[:] = [f for f in ck.oracle_fails if f.get("family") != pipelib.FAMILY]
+    try:
+        if ck.is_broken() or out["failures"]:
+            rl.resolve_search(ck, out)
+    finally:
+        ck.disagreements.extend(pipe_dis)
+        ck.oracle_fails.extend(pipe_orc)
+    if (pipe_dis or pipe_orc) and not comp["failures"] and not ck.violations:
+        # the two front ends differ only in spans / order / warnings: the tie is broken, no verdict differs
+        rep = pipelib.report(ck, "composed front-end model and real front end answer differently (same verdict and "
+                                 "error categories); no text on which acceptance or the category differs was found")
+        ck.report_violation(rep or {"kind": "tie-broken", "family": "pipe", "requests": []},
+                            no_input_found=(rep is None or rep["kind"] != "impl-vs-oracle"))
     return ck.finish()
 
 
+def composed_stream(ck, n):
+    """`front` requests: corpus/C09/front.src, then `nvh pipe gen --kind static`. A text on which the
+    implementation accepts while the Lean front end rejects with an error of a C09 category (or the
+    other way round, or the error categories differ, or the implementation does not return) is a
+    concrete failing input of C09."""
+    corpus = pipelib.corpus_requests("C09")
+    ck.count("composed_corpus_requests", len(corpus))
+    reqs, res = pipelib.pipe_stream(ck, "static", n, label="pipe-static(front end vs Lean front end)", extra=corpus)
+    failures, cats = [], {}
+    for r, a, b in zip(reqs, res["impl_lines"], res["model_lines"]):
+        va, vb = pipelib.verdict(a), pipelib.verdict(b)
+        if vb[0] == "semantic":
+            for c in vb[1]:
+                cats[c] = cats.get(c, 0) + 1
+            ck.nontrivial_case(r)
+        if a == "unrun" or va == vb:
+            continue
+        failures.append({"request": r, "impl": a, "model": b, "what": describe(va, vb)})
+    ck.extra_cov["composed_rejections_by_category"] = cats
+    ck.count("composed_verdict_failures", len(failures))
+    return {"requests": reqs, "res": res, "failures": failures}
+
+
+def describe(va, vb):
+    def say(v):
+        if v[0] == "semantic":
+            return "rejects with " + (" + ".join(v[1]) or "an error")
+        return {"accepted": "accepts", "syntax": "rejects with a syntax error", "noreturn": f"does not return ({v[-1]})"}.get(v[0], str(v))
+    return f"the implementation {say(va)}; the front-end model (lexer, parser and static rules in Lean) {say(vb)}"
+
+
+def report_composed(ck, comp):
+    """One report per kind of verdict difference, each on its shortest text, shrunk."""
+    by_kind = {}
+    for f in comp["failures"]:
+        key = (pipelib.verdict(f["impl"])[0], pipelib.verdict(f["model"])[0])
+        by_kind.setdefault(key, []).append(f)
+    for key, fs in list(by_kind.items())[:3]:
+        f = min(fs, key=lambda x: len(x["request"]))
+        want = (pipelib.verdict(f["impl"]), pipelib.verdict(f["model"]))
+
+        def still(r, want=want):
+            a, b, _ = pipelib.one(ck, r)
+            return (pipelib.verdict(a), pipelib.verdict(b)) == want
+        req = pipelib.shrink_text(ck, f["request"], still, budget=120, budget_s=150)
+        a, b, _ = pipelib.one(ck, req)
+        va, vb = pipelib.verdict(a), pipelib.verdict(b)
+        ck.report_violation({"kind": "impl-vs-front-end-model", "family": pipelib.FAMILY, "what": describe(va, vb),
+                             "c09_categories": [c for v in (va, vb) if v[0] == "semantic" for c in v[1] if c in C09_CATEGORIES],
+                             "program": pipelib.text_of(req), "requests": [req], "impl": a, "model": b,
+                             "failing_cases": len(fs), "replay_cmd": f"./check {ck.pid} --replay <this file>"})
+
+
 def replay(ck, data):
+    if data.get("family") == pipelib.FAMILY:
+        return pipelib.replay(ck, data)
     return rl.resolve_replay(ck, data)
